@@ -33,24 +33,29 @@ NOT_DECIDED = [
 # ---------------------------------------------------------------------------------------------
 
 class GMat:
-    """ small dense matrix of unconstrained reals (result of backend.expm / slicing / scaling) """
-    def __init__(self, tag='F'):
+    """
+    small dense matrix of unconstrained reals (result of backend.expm / slicing / scaling).  Ghost fields: `scale` -- the scalar
+    a Hessenberg matrix was multiplied by; `time` -- for exp(scale * T) and everything sliced from it, that scalar
+    """
+    def __init__(self, tag='F', scale=1, time=None):
         self.tag = tag
         self.writes = []
+        self.scale = scale
+        self.time = time
 
     def __getitem__(self, idx):
         if isinstance(idx, tuple) and not any(isinstance(i, slice) for i in idx):
             return GScalar()
-        return GMat(self.tag + '[]')
+        return GMat(self.tag + '[]', self.scale, self.time)
 
     def __setitem__(self, idx, v):
         self.writes.append(idx)
 
     def __truediv__(self, o):
-        return GMat(self.tag + '/')
+        return GMat(self.tag + '/', self.scale, self.time)
 
     def __mul__(self, o):
-        return GMat(self.tag + '*')
+        return GMat(self.tag + '*', self.scale * o if self.time is None else self.scale, self.time)
     __rmul__ = __mul__
 
 
@@ -80,7 +85,7 @@ class GBackend:
         return GMat('T')
 
     def expm(self, x):
-        return GMat('F')
+        return GMat('F', 1, time=x.scale)          # exp(scale * T): the Krylov approximation of the evolution by `scale`
 
     def norm_matrix(self, x):
         r = sym.opaque_real('normF')
@@ -94,7 +99,9 @@ class GCfg:
 
 
 class GList:
-    """ Krylov basis with symbolic length """
+    """ Krylov basis with symbolic length; its first vector is the vector the space was started from """
+    base_evolved = None
+
     def __init__(self, n):
         self.n = n
 
@@ -104,34 +111,37 @@ class GList:
     def __getitem__(self, i):
         if isinstance(i, slice):
             return (GVec(self.owner),)
-        return GVec(self.owner)
+        return GVec(self.owner, evolved=self.base_evolved if isinstance(i, int) and i == 0 else None)
 
 
 class GVec:
-    """ the vector: only what expmv calls """
+    """ the vector: only what expmv calls.  Ghost field `evolved`: the vector is exp(evolved * F) v0 up to normalisation """
     yastn_dtype = 'float64'
     device = 'cpu'
 
-    def __init__(self, world):
+    def __init__(self, world, evolved=None):
         self.world = world
         self.config = world['cfg']
         self.size = world['size']
+        self.evolved = evolved
 
     def norm(self):
         return self.world['norm0']
 
     def __truediv__(self, o):
-        return GVec(self.world)
+        return GVec(self.world, self.evolved)
 
     def __rmul__(self, o):
         self.world['final_scale'] = o
-        return GVec(self.world)
+        return GVec(self.world, self.evolved)
 
     def __mul__(self, o):
         return self.__rmul__(o)
 
     def add(self, *others, amplitudes=None, **kw):
-        return GVec(self.world)
+        # contract of the Krylov step: V . (exp(s T) e_0) is the basis' first vector evolved by s
+        tm = getattr(amplitudes, 'time', None)
+        return GVec(self.world, self.evolved + tm if (tm is not None and self.evolved is not None) else None)
 
     def expand_krylov_space(self, f, tol, ncv, hermitian, V, H=None, **kw):
         """ contract: 1 <= len(V') <= ncv + 1, len(V') >= len(V); happy flag free; H holds (m, m-1) unless happy """
@@ -144,6 +154,7 @@ class GVec:
         c.assume(Implies(Not(happy), n >= 2))      # without breakdown at least one direction was added (ncv >= 1)
         Vn = GList(n)
         Vn.owner = w
+        Vn.base_evolved = self.evolved
         Hn = GDict()
         w['calls'] += 1
         return Vn, Hn, happy
@@ -180,6 +191,8 @@ class ExpmvInvariant:
             ('order-estimate-positive', Implies(e['order_computed'], e['order'] >= 1) if 'order' in e else Not(e['order_computed'])),
             ('ncv-estimate-above-one', Implies(e['ncv_computed'], e['ncv_est'] > 1) if 'ncv_est' in e else Not(e['ncv_computed'])),
             ('krylov-space-kept-only-after-rejection', Or(e['V'] is None, e['reject'])),
+            # ghost: the current vector is the start vector evolved by exactly the elapsed (signed) time
+            ('vector-evolved-for-exactly-the-elapsed-time', (e['v'].evolved == e['sgn'] * t_now) if e['v'].evolved is not None else False),
         ]
 
     def havoc(self, V, e):
@@ -196,7 +209,7 @@ class ExpmvInvariant:
         e['ncv_old'] = c.int(c.fresh_name('ncv_old'))
         e['order'] = c.real(c.fresh_name('order'))
         e['ncv_est'] = c.real(c.fresh_name('ncv_est'))
-        e['v'] = GVec(self.world)
+        e['v'] = GVec(self.world, evolved=c.real(c.fresh_name('evolved')))
         # the Krylov space is either reset (None) or carried over from a rejected step
         if c.choose():
             e['V'], e['H'] = None, None
@@ -205,6 +218,7 @@ class ExpmvInvariant:
             c.assume(And(n >= 1, n <= e['ncv'] + 1))
             Vn = GList(n)
             Vn.owner = self.world
+            Vn.base_evolved = e['v'].evolved          # a retained space still starts from the (unchanged) current vector
             e['V'], e['H'] = Vn, GDict()
         info = dict(e['info'])
         info['steps'] = c.int(c.fresh_name('steps'))
@@ -238,7 +252,7 @@ def h_expmv(V, normalize, zero_vector, t_sign):
         world['ncv0'] = Ite(ncv0 > 1, ncv0, 1)
         tol = V.real('tol')
         V.assume(tol > 0)
-        v = GVec(world)
+        v = GVec(world, evolved=0.0)
         inv = ExpmvInvariant(V, world)
         V.interp.loop_invariants[('yastn.krylov._krylov:expmv', 0)] = inv
         out = V.outcome(expmv, lambda x: x, v, t=t, tol=tol, ncv=ncv0, hermitian=False, normalize=normalize, return_info=True)
@@ -250,6 +264,9 @@ def h_expmv(V, normalize, zero_vector, t_sign):
             return
         res, info = out.value
         V.check('info-reports-final-ncv>=1', info['ncv'] >= 1)
+        if not zero_vector:
+            # ghost postcondition: the returned vector is the start vector evolved by t (invariant + exit condition t_now == |t|)
+            V.check('result-is-the-start-vector-evolved-by-t', (res.evolved == t) if res.evolved is not None else False)
         if zero_vector or t_sign == 'zero':
             V.check('no-sub-step-is-taken', world['calls'] == 0)
         if not normalize:
@@ -301,7 +318,7 @@ def h_expmv_progress(V):
         inv = Inv(V, world)
         V.interp.loop_invariants[('yastn.krylov._krylov:expmv', 0)] = inv
         # the happy-breakdown branch replaces tau by the remaining time before it is used: tau_at_head must then be read after
-        out = V.outcome(expmv, lambda x: x, GVec(world), t=t, tol=tol, ncv=ncv0, hermitian=True, normalize=False, return_info=True)
+        out = V.outcome(expmv, lambda x: x, GVec(world, evolved=0.0), t=t, tol=tol, ncv=ncv0, hermitian=True, normalize=False, return_info=True)
         V.check('returns-normally', out.exc is None)
         # after the loop: invariant (t_now <= t_out) and exit condition (not t_now < t_out) give t_now == t_out = |t|
     finally:
